@@ -423,8 +423,11 @@ def flatten_node(
             acc.append(flatten_node(x, f"{prefix}/{i}", f"{path}{i}-"))
         return "".join(acc)
     else:
-        # If the node is a terminal value, dump it
-        return f"""{prefix}={repr(node)}\n"""
+        # If the node is a terminal value, dump it. The text `_pos=` announces a position: when it
+        # appears inside a string literal, its equals sign is escaped with a backslash (there is no
+        # ambiguity, since `repr()` doubles the backslashes of the literal).
+        value = repr(node).replace("_pos=", r"_pos\=")
+        return f"""{prefix}={value}\n"""
 
 
 def simplify_negative_literals(
